@@ -197,7 +197,10 @@ impl Evaluator {
                 .any(|segment| match segment {
                     InterpolationSegment::String(_) => false,
                     InterpolationSegment::Value(value) => {
+                        // converting the value to a string can call a `__tostring` metamethod
                         self.has_side_effects(value.get_expression())
+                            || (!self.pure_metamethods
+                                && self.maybe_metatable(&self.evaluate(value.get_expression())))
                     }
                 }),
             Expression::TypeCast(type_cast) => self.has_side_effects(type_cast.get_expression()),
